@@ -1,6 +1,10 @@
 package main
 
-import "strings"
+import (
+	"strings"
+
+	redisemu "github.com/jimsnab/go-redisemu"
+)
 
 // ---- C05: sets ------------------------------------------------------------------------------
 
@@ -87,6 +91,7 @@ func specC05(tier string) *SeqSpec {
 	if tier == "thorough" {
 		s.Depth = 2
 	}
+	s.Long = dictHistories("SADD", "SREM", "k1", false, tier)
 	return s
 }
 
@@ -136,7 +141,132 @@ func specC04(tier string) *SeqSpec {
 	if tier == "thorough" {
 		s.Depth = 3
 	}
+	s.Long = dictHistories("HSET", "HDEL", "h1", true, tier)
 	return s
+}
+
+// dictHistories builds fill/drain histories that force the bucket table of a hash, set or the
+// keyspace to double several times and to halve again (add, remove in different orders, re-add).
+func dictHistories(add, del, key string, withValue bool, tier string) [][]Op {
+	mk := func(cmd string, name string, i int) Op {
+		a := []string{cmd}
+		if key != "" {
+			a = append(a, key)
+		}
+		a = append(a, name)
+		if cmd == add && withValue {
+			a = append(a, "v"+itoa(i))
+		}
+		return Op{Args: a}
+	}
+	n := 70
+	if tier == "thorough" {
+		n = 200
+	}
+	var out [][]Op
+	for variant := 0; variant < 4; variant++ {
+		var h []Op
+		name := func(i int) string { return "f" + itoa(i) }
+		for i := 0; i < n; i++ {
+			h = append(h, mk(add, name(i), i))
+		}
+		order := make([]int, n)
+		for i := range order {
+			switch variant {
+			case 0:
+				order[i] = i
+			case 1:
+				order[i] = n - 1 - i
+			case 2:
+				order[i] = (i*37 + 11) % n // a permutation when gcd(37,n)=1
+			case 3:
+				if i%2 == 0 {
+					order[i] = i / 2
+				} else {
+					order[i] = n - 1 - i/2
+				}
+			}
+		}
+		if variant == 2 && n%37 == 0 {
+			continue
+		}
+		// drain all but three, refill a third, drain everything
+		for _, i := range order[:n-3] {
+			h = append(h, mk(del, name(i), i))
+		}
+		for i := 0; i < n/3; i++ {
+			h = append(h, mk(add, "g"+itoa(i), i))
+		}
+		for _, i := range order[n-3:] {
+			h = append(h, mk(del, name(i), i))
+		}
+		for i := n/3 - 1; i >= 0; i-- {
+			h = append(h, mk(del, "g"+itoa(i), i))
+		}
+		out = append(out, h)
+	}
+	out = append(out, churnHistories(mk, add, del)...)
+	return out
+}
+
+// namesWithLowBits returns count names "<prefix><i>" whose hash has the given low bits.
+func namesWithLowBits(prefix string, bits uint, pattern uint64, count int) []string {
+	var out []string
+	mask := uint64(1)<<bits - 1
+	for i := 0; len(out) < count && i < 5000000; i++ {
+		n := prefix + itoa(i)
+		if redisemu.VHash(n)&mask == pattern&mask {
+			out = append(out, n)
+		}
+	}
+	return out
+}
+
+// churnHistories: a few persistent elements that collide in their low hash bits force the table
+// to a chosen size; a temporary element is then added and removed often enough for the
+// "many removals" shrink check to run - while the colliding pair is present (shrinking would
+// lose data), after one of the pair was removed (shrinking is fine), and after re-adding it.
+func churnHistories(mk func(cmd, name string, i int) Op, add, del string) [][]Op {
+	var out [][]Op
+	for _, v := range [][2]uint{{4, 0}, {5, 0}, {6, 0}, {4, 1}, {5, 3}, {4, 2}} { // colliding in the low 4/5/6 bits => table of 32/64/128
+		lg, flip := v[0], v[1]
+		size := 1 << (lg + 1)
+		base := redisemu.VHash("seed" + itoa(int(lg)))
+		lowA := base & (uint64(1)<<lg - 1)
+		// a and b agree in the low lg bits and differ in bit lg: adjacent buckets of the doubled table
+		a := namesWithLowBits("a", lg+1, lowA, 1)
+		b := namesWithLowBits("b", lg+1, lowA|uint64(1)<<lg, 1)
+		// bystanders that differ from a in one lower bit (flip 0: the opposite half of the table)
+		cN := namesWithLowBits("c", lg+1, lowA^(uint64(1)<<flip), 2)
+		if len(a) == 0 || len(b) == 0 || len(cN) < 2 {
+			continue
+		}
+		var h []Op
+		i := 0
+		churn := func(n int) {
+			for k := 0; k < n; k++ {
+				t := "t" + itoa(i)
+				i++
+				h = append(h, mk(add, t, i), mk(del, t, i))
+			}
+		}
+		h = append(h, mk(add, a[0], 1), mk(add, b[0], 3))
+		churn(size/2 + 3) // shrink check runs; a/b adjacent => must not shrink
+		h = append(h, mk(add, cN[0], 2))
+		churn(size/2 + 3)
+		h = append(h, mk(add, cN[1], 4))
+		churn(size/2 + 3)
+		h = append(h, mk(del, b[0], 3))
+		churn(size/2 + 3) // now reducible
+		churn(size/4 + 3) // and once more
+		h = append(h, mk(add, b[0], 5)) // grows again
+		churn(size/2 + 3)
+		h = append(h, mk(del, a[0], 1), mk(del, cN[0], 2))
+		churn(size/2 + 3)
+		h = append(h, mk(del, b[0], 5), mk(del, cN[1], 4))
+		out = append(out, h)
+	}
+	return out
 }
 
 // ---- C02: strings -----------------------------------------------------------------------------
